@@ -1021,6 +1021,21 @@ def order_of_requests(R, seed):
             missing = [c.__name__ for c in (X, V) if c is not None and 'p' not in c._type_info]
             if missing:
                 R.violation('after append_field the member is missing from %s' % missing, case, mech='self_member:missing_from_variant')
+                continue
+            # every registered variant of the class has the member - also the ones that came to be while it was added (the types of
+            # the member itself in the variants), to any depth a document can reach
+            regs = [c for c in (X.Attributes._variants or {})]
+            lacking = [repr(c) for c in regs if 'p' not in c._type_info]
+            def reach(cls, depth):
+                t = cls._type_info.get('p')
+                if t is None:
+                    return depth
+                inner = list(t._type_info.values())[0] if kind == 'array_of_own' and hasattr(t, '_type_info') and 'p' not in t._type_info else t
+                return depth if depth >= 4 else reach(inner, depth + 1)
+            shallow = [c.__name__ for c in (X, V) if c is not None and reach(c, 0) < 4]
+            if lacking or shallow:
+                R.violation('member of the class\'s own type (%s, variants: %s): %d registered variant(s) lack it; nesting stops early below %s' % (kind, pre, len(lacking), shallow),
+                            case, mech='self_member:variant_created_meanwhile_lacks_member')
     # a derived number type that is asked to admit more digits than its parent
     for a, b in ((5, 8), (3, 4), (8, 5), (2, 30)):
         for fa, fb in ((0, 0), (2, 3), (0, 2)):
